@@ -22,7 +22,7 @@ from core import InfraError
 META = dict(
     level="model_checking",
     technique="stateless model checking of the implementation: preemption-bounded serialising scheduler over sancov block edges + explicit-state BFS over static-segment images + free-running ThreadSanitizer pass",
-    text="All op pairs (MSSM/THDM construction+evaluation, SLHA conversion, read-only evaluation of shared const models, loop-function batch, SLHA parsing) run on 2 (thorough: 3) real threads under a serialising scheduler: default schedule, every schedule with one preemption at every basic-block edge of library code (quick: reduced by the stated commutation argument when no thread writes monitored memory), two preemptions at visible points; every result must be bit-identical to the sequential one and shared models byte-identical. History BFS to depth 3/4 over static-segment states. Separate free-running TSan pass on every pair and on 2..16 threads. Bounded: 2-3 threads, <=2 preemptions, the op alphabet; weak-memory effects and heap reachable only through static pointers are left to TSan.",
+    text="All op pairs (MSSM/THDM construction+evaluation, SLHA conversion, read-only evaluation of shared const models, loop-function batch, SLHA parsing) run on 2 (thorough: 3) real threads under a serialising scheduler: default schedule, every schedule with one preemption at every basic-block edge of library code (quick: reduced by the stated commutation argument when no thread writes monitored memory), two preemptions at visible points; every result must be bit-identical to the sequential one, shared models byte-identical, and every model handed to an evaluation observably unchanged afterwards (printed form plus problem/warning lists, also after an exception; op O12: points whose non-resummed spectrum alone is tachyonic, on a shared model, a copy and a fresh model). History BFS to depth 3/4 over static-segment states. Separate free-running TSan pass on every pair and on 2..16 threads. Bounded: 2-3 threads, <=2 preemptions, the op alphabet; weak-memory effects and heap reachable only through static pointers are left to TSan.",
     note="trusted: clang sancov/TSan instrumentation, the hand-written scheduler (checked every run by a canary and by replaying each failing schedule twice), the static-segment snapshot (dl_iterate_phdr, RELRO and guard array excluded)",
     design_ref="2.6, 3/C19")
 HARNESSES = [(("conc", "cov", ["conc.cpp"]), dict(extra=["-rdynamic"], cov_sources=["canary.cpp"])),
